@@ -20,6 +20,8 @@ def run_exec_case(case, mon, prop, driver=None, max_steps=200, sample_extra=None
             if status != "problems":
                 w, probs = w2, probs2
     if status == "skipped-ambiguous":
+        # problems under the default resolution of float-boundary decisions, too many alternatives to try:
+        # no verdict from this case (the share of such cases is limited, see core LIMIT_FRACTION)
         mon.count("skipped_too_ambiguous")
         return w, []
     for k, v in w.events.items():
@@ -46,10 +48,34 @@ def mix_case(rng, seed_tag, **kw):
     pipes = execgen.pipelines_for(rng, w, kw.get("npipes") or rng.randint(2, 8), mem_heavy=kw.get("mem_heavy", False),
                                   maxn=kw.get("maxn", 6), nops=kw.get("nops"))
     return {"kind": "mix", "world": w, "pipelines": pipes, "driver_seed": rng.getrandbits(48),
-            "driver": {k: kw[k] for k in ("steps", "p_assign", "p_suspend", "p_bad", "bad_kinds", "integer_sizes", "p_unready") if k in kw},
+            "driver": {k: kw[k] for k in ("steps", "p_assign", "p_suspend", "p_bad", "bad_kinds", "integer_sizes", "p_unready",
+                                          "fixed_size", "per_pool") if k in kw},
             "drain": kw.get("drain", 300), "_adaptive_pending": True, "steps": None}
 
 
 def mix_driver(case):
     import random
     return execgen.MixDriver(random.Random(case["driver_seed"]), **case.get("driver", {}))
+
+
+def busy_case(rng, steps, growing=False, p_suspend=0.15):
+    """A long, *busy* script in one pool: dozens of unit-sized containers alive at any time, several
+    completions and starts in every tick, multi-tick write-outs always in progress.  Pool tick
+    counters pass 4096 (twice in the thorough tier), > 1000 container exits, > 10,000 memory updates."""
+    tps = 100
+    w = {"pools": 1, "cpus": 64, "ram": 256, "tps": tps, "multi": True, "overcommit": False}
+    n = max(600, int(steps * 2.2))
+    pipes = []
+    for i in range(n):
+        nops = rng.choice([2, 2, 3])
+        ops = []
+        for k in range(nops):
+            t_io = rng.choice([0, 1, 2]) if growing else 0
+            ops.append({"parents": [k - 1] if k else [],
+                        "segs": [{"cpu": (rng.randint(1, 3) + 0.5) / tps, "law": "const",
+                                  "mem": None if growing else 0.05, "read": 20.0 * (t_io + 0.5) / tps if growing else 0.0}]})
+        pipes.append({"pid": f"b{i}", "prio": "BATCH_PIPELINE", "ops": ops})
+    return {"kind": "mix", "world": w, "pipelines": pipes, "driver_seed": rng.getrandbits(48),
+            "driver": {"steps": steps, "p_assign": 1.0, "p_suspend": p_suspend, "p_bad": 0.0, "integer_sizes": True, "p_unready": 0.0,
+                       "fixed_size": [1, 3.3], "per_pool": 3},     # 3.3 GB: write-out 16.5 ticks (no float-boundary decision), CPU-bound pool
+            "drain": 400, "_adaptive_pending": True, "steps": None, "_busy": True}
